@@ -5,6 +5,7 @@ import (
 	"fmt"
 	"reflect"
 	"regexp"
+	"sort"
 	"strings"
 	"unsafe"
 
@@ -126,6 +127,14 @@ func attrOf(n sql.Node) string {
 			roDb = ro.IsReadOnly()
 		}
 	}
+	// any node that names its database (sql.Databaser): is that database read-only?
+	if d, ok := n.(sql.Databaser); ok {
+		hx.Safe(func() {
+			if db := d.Database(); db != nil {
+				dbBits(db)
+			}
+		})
+	}
 	switch x := n.(type) {
 	case *plan.ExternalProcedure:
 		flag = x.ReadOnly
@@ -164,7 +173,25 @@ func safeChildren(n sql.Node) (cs []sql.Node, ok bool) {
 	return n.Children(), true
 }
 
+// serFlags records, for the last serialisation, features the model does not describe: a node whose
+// Children() panics (zero-valued placeholder kinds), and a typed nil pointer stored in a field of
+// concrete pointer type (it behaves like a node for the traversals, unlike an untyped nil).
+var serChildrenPanic, serTypedNil bool
+
+func containsNode(kids []sql.Node, x sql.Node) bool {
+	for _, k := range kids {
+		if sameNode(k, x) {
+			return true
+		}
+	}
+	return false
+}
+
 // ser renders the tree rooted at n: (n <field> <kind> <ischild> <attr> child*).
+//
+// isChild of a field node: it is an element of the parent's Children(); or ("transparent") it is not,
+// but all of its own children are (RecursiveCte.union: Children() returns the union's operands), so a
+// Children()-traversal reaches exactly the same nodes through it.
 func ser(field string, n sql.Node, isChild bool, depth int) string {
 	c := "0"
 	if isChild {
@@ -173,21 +200,70 @@ func ser(field string, n sql.Node, isChild bool, depth int) string {
 	if n == nil || isNilValue(reflect.ValueOf(n)) || depth > 40 {
 		return "(n " + hx.HexS(field) + " " + hx.HexS("<nil>") + " " + c + " 00000)"
 	}
-	var parts []string
-	kids, _ := safeChildren(n)
+	type part struct {
+		idx int
+		s   string
+	}
+	var parts []part
+	kids, okc := safeChildren(n)
+	if !okc {
+		serChildrenPanic = true
+	}
+	used := make([]bool, len(kids))
+	// index of x in Children() (first unused match); nil matches a nil entry
+	indexOf := func(x sql.Node) int {
+		for i, k := range kids {
+			if used[i] {
+				continue
+			}
+			if sameNode(k, x) || (x == nil && (k == nil || isNilValue(reflect.ValueOf(k)))) {
+				return i
+			}
+		}
+		return -1
+	}
+	seq := 0
 	for _, f := range nodeFields(addressable(n), false) {
 		emit := func(v reflect.Value) {
 			var child sql.Node
 			if !isNilValue(v) {
 				child, _ = v.Interface().(sql.Node)
+			} else if v.Kind() != reflect.Interface {
+				serTypedNil = true
 			}
-			ic := false
-			for _, k := range kids {
-				if sameNode(k, child) {
-					ic = true
+			idx := indexOf(child)
+			if idx >= 0 {
+				used[idx] = true
+			} else if child != nil {
+				// transparent: all of the node's own children are children of n
+				if gk, ok := safeChildren(child); ok && len(gk) > 0 {
+					first, all := -1, true
+					for _, g := range gk {
+						j := indexOf(g)
+						if j < 0 {
+							all = false
+							break
+						}
+						if first < 0 {
+							first = j
+						}
+					}
+					if all {
+						idx = first
+						for _, g := range gk {
+							if j := indexOf(g); j >= 0 {
+								used[j] = true
+							}
+						}
+					}
 				}
 			}
-			parts = append(parts, ser(f.name, child, ic, depth+1))
+			seq++
+			order := len(kids) + seq
+			if idx >= 0 {
+				order = idx
+			}
+			parts = append(parts, part{order, ser(f.name, child, idx >= 0, depth+1)})
 		}
 		if f.slice {
 			for i := 0; i < f.val.Len(); i++ {
@@ -197,9 +273,11 @@ func ser(field string, n sql.Node, isChild bool, depth int) string {
 			emit(f.val)
 		}
 	}
+	// children in Children() order (the traversals of the rules follow it), other field nodes after
+	sort.SliceStable(parts, func(i, j int) bool { return parts[i].idx < parts[j].idx })
 	s := "(n " + hx.HexS(field) + " " + hx.HexS(kindOf(n)) + " " + c + " " + attrOf(n)
-	if len(parts) > 0 {
-		s += " " + strings.Join(parts, " ")
+	for _, p := range parts {
+		s += " " + p.s
 	}
 	return s + ")"
 }
@@ -339,6 +417,11 @@ func build(specs map[string]*kindSpec, w *world, t *tnode) (sql.Node, error) {
 		case "plan.CreateTable":
 			if !setField(pv.Elem(), "temporary", reflect.ValueOf(t.flag)) || !setField(pv.Elem(), "Db", reflect.ValueOf(&w.dbs[t.dbClass]).Elem()) {
 				return nil, fmt.Errorf("CreateTable attributes not settable")
+			}
+		default:
+			// every other kind that embeds ddlNode names its database too
+			if t.dbClass != 0 {
+				setField(pv.Elem(), "Db", reflect.ValueOf(&w.dbs[t.dbClass]).Elem())
 			}
 		case "plan.ResolvedTable":
 			if !setField(pv.Elem(), "Table", reflect.ValueOf(&w.tables[t.tblClass]).Elem()) || !setField(pv.Elem(), "SqlDatabase", reflect.ValueOf(&w.dbs[t.dbClass]).Elem()) {
